@@ -20,6 +20,16 @@ CHECKS = {
    text="Proof: (uniqueness) the regular expressions registered in bmnumbers.AllMatchers are translated on every run and their pairwise disjointness is decided on the languages themselves by a checker proved sound in Coq, so no string of any length is claimed by two notations; hence ImportString is independent of map order. (round trip / widths) import(export(n)) = n for every representable unsigned-64, hex and bin number, ExportBinaryNBits has exactly n digits, ExportVerilogBinary has the stated width. Partial: floats are checked only by the Go-side round-trip predicate (strconv not modelled), FloPoCo and linear-quantiser types are not modelled; sized-unsigned export is a recorded finding.",
    design_ref="DESIGN.md section 5, C08",
    note="Trusted: Coq kernel; translators/regex.py (validated against regexp.MatchString each run); harness/c08.go + lib/c08.py; Front/Numbers.v is a value-level model."),
+ "C13": dict(
+   technique="Coq proof of refinement to an abstract sequence for a parametric step function (all configurations, all inputs); model tied to the emitted Verilog by exhaustive state x input equality under a Coq Verilog semantics",
+   text="Proof: for every memory type, depth, data width, number of senders and receivers and every input sequence, Gen.StackModel.step keeps the invariant (sp = number of stored elements, circular-pointer relation), each acknowledge rises exactly in the cycle of its transfer, an acknowledged write stores its value exactly once, an acknowledged read returns and removes the element the LIFO/FIFO discipline prescribes, nothing else changes the contents, empty/full reflect the contents, and a continuously requesting agent is served within #agents cycles when the interface is ready. The step function is a transcription of the template; for the small configurations (dsize 1, depth <= 2, <= 2+2 agents) model and emitted circuit are compared on every state and every input inside Coq (Vlog.Sem), larger configurations by lock-step runs.",
+   design_ref="DESIGN.md section 5, C13",
+   note="Trusted: Coq kernel; Vlog.Sem as the meaning of the emitted Verilog; lib/vparse.py + lib/vcoq.py front-end; harness vlog command."),
+ "C15": dict(
+   technique="Coq proof of print/parse round trip on a model of simbox.Add / Rule.String; correspondence on rule-list histories",
+   text="Proof (part 1, rule text and rule list): every rule in the image of the parser prints to a string that parses back to the same rule (all rule forms, ticks over the whole uint64 range including the signed rendering), the image of the parser is characterised syntactically, suspended rules are absent from the active list, reactivation restores. Model tied to simbox by replaying random rule-list histories (add/del/suspend/reactivate, malformed text, out-of-range indices) and comparing every intermediate list and printed form; JSON save/load checked on the Go side. Part 2 (effect of rules during simulation) is not yet modelled: partial.",
+   design_ref="DESIGN.md section 5, C15",
+   note="Trusted: Coq kernel; harness/c15.go + lib/c15.py; Front/Simbox.v hand-written model."),
 }
 NOT_APPLICABLE = []
 
